@@ -17,7 +17,8 @@ def scheduler(P: Program, key: str) -> Func:
     from ..util import inline_helpers, dealias, desugar_extend, prefix_counter_to_list
     # ... dict comprehensions / extend(<comprehension>) written as the loops they abbreviate, object aliases such as
     # `stats = pool_stats[pool_id]` written out
-    return dealias(desugar_extend(prefix_counter_to_list(inline_helpers(P, P.scheduler(key)))))
+    from ..partition import pool_walks
+    return dealias(desugar_extend(prefix_counter_to_list(pool_walks(P, inline_helpers(P, P.scheduler(key))))))
 
 
 def module_helpers(P: Program, f: Func, depth: int = 3) -> List[Func]:
